@@ -192,7 +192,7 @@ def synthetic_case(draw, lang):
     R = rm.RM(u.table)
     params = u.table.cls[key]['params']
     pool = list(u.ground_base())
-    pool_kinds = draw(st.sets(st.sampled_from(['bare', 'prims', 'inst']), max_size=3))
+    pool_kinds = draw(st.sets(st.sampled_from(['bare', 'prims', 'inst', 'decls', 'decls']), max_size=3))
     extra = []
     if 'inst' in pool_kinds:
         for _ in range(2):
@@ -241,6 +241,9 @@ def run_synthetic(spec, col, n):
         u, key, pool, pool_kinds, pre, vc, flags, dis, fun, seed = case
         con = u.classes[key]
         types = [u.ir(t) for t in pool]
+        if 'decls' in pool_kinds:
+            # the generator's own calling convention: every class as its declaration (generic ones too), builtins as types
+            types = [x for x in types if getattr(x, 'name', None) not in u.classes] + [u.decl(k) for k in u.order]
         if 'bare' in pool_kinds:
             types += [u.classes[k] for k in u.generics()]
         if 'prims' in pool_kinds:
